@@ -12,7 +12,7 @@ def impl_replay(case):
     """case: spec, kind in {ssa,dssa,vssa}, safe, times, seed, [volume: {...}]"""
     import numpy as np, warnings
     from bioscrape.simulator import (ModelCSimInterface, SafeModelCSimInterface, SSASimulator, DelaySSASimulator,
-                                     VolumeSSASimulator, ArrayDelayQueue)
+                                     VolumeSSASimulator, DelayVolumeSSASimulator, ArrayDelayQueue)
     from bioscrape.types import Volume, StochasticTimeThresholdVolume, StateDependentVolume
     from bioscrape.random import py_seed_random, py_rand_int
     warnings.simplefilter("ignore")
@@ -47,7 +47,11 @@ def impl_replay(case):
             v = StochasticTimeThresholdVolume(vs["cycle"], vs["avg"], vs["noise"])
             v.py_initialize(x0.copy(), p_before.copy(), case.get("t0", 0.0), vs["V0"]); pre = 2
             vtoks = ["tt?", fhex(vs["cycle"]), fhex(vs["avg"]), fhex(vs["noise"]), fhex(vs["V0"])]
-        res = VolumeSSASimulator().py_volume_simulate(I, v, T)
+        if case["kind"] == "dvssa":
+            q = ArrayDelayQueue.setup_queue(I.py_get_num_reactions(), len(T), dt)
+            res = DelayVolumeSSASimulator().py_delay_volume_simulate(I, q, v, T)
+        else:
+            res = VolumeSSASimulator().py_volume_simulate(I, v, T)
     nxt = py_rand_int()
     py_seed_random(seed)
     raws = []; pos = -1
@@ -63,13 +67,13 @@ def impl_replay(case):
     out["params_after"] = [fhex(v) for v in np.asarray(I.py_get_param_values(), dtype=float)]
     out["model_params_after"] = [fhex(v) for v in np.asarray(M.get_parameter_values(), dtype=float)]
     out["species_after"] = [fhex(v) for v in np.asarray(I.py_get_initial_state(), dtype=float)]
-    if case["kind"] == "dssa":
+    if case["kind"] in ("dssa", "dvssa"):
         qf = res.py_get_delay_queue(); c = qf.py_copy(); nrx = I.py_get_num_reactions()
         qd = [fhex(c.py_get_next_queue_time())]
         for _ in range(len(T)):
             a = np.zeros(nrx); c.py_get_next_reactions(a); qd += [fhex(v) for v in a]; c.py_advance_time()
         out["queue"] = qd; out["ncols"] = len(T)
-    if case["kind"] == "vssa":
+    if case["kind"] in ("vssa", "dvssa"):
         out["vols"] = [fhex(v) for v in np.asarray(res.py_get_volume())]; out["divided"] = int(bool(res.py_cell_divided()))
         out["vtoks"] = vtoks
     return out
@@ -80,12 +84,13 @@ def driver_line(case, r):
     raws = r["raws"][r.get("pre", 0):]
     toks += [str(len(raws))] + raws
     if case["kind"] == "dssa": toks += [str(r["ncols"])]
-    if case["kind"] == "vssa":
+    if case["kind"] in ("vssa", "dvssa"):
         vt = r["vtoks"]
         if vt[0] == "base": toks += ["base", vt[1]]
         else:
             # StochasticTimeThresholdVolume.initialize: division time from the first two uniforms of the stream
             toks += ["ttinit"] + vt[1:] + r["raws"][:2]
+    if case["kind"] == "dvssa": toks += [str(r["ncols"])]
     return " ".join(toks)
 
 def parse_model_out(out):
@@ -114,9 +119,9 @@ def compare(case, r, out):
         if len(a) != len(b) or not all(_close(x, y) for x, y in zip(a, b)): return "row %d: model %r implementation %r" % (k, a, b)
     if int(m["POS"][0]) != r["pos"]: return "draw count: model consumed %s uniforms, implementation %d" % (m["POS"][0], r["pos"])
     if not all(_close(x, y) for x, y in zip(m["P"], r["params_after"])): return "parameter vector after the run: model %r implementation %r" % (m["P"], r["params_after"])
-    if case["kind"] == "dssa":
+    if case["kind"] in ("dssa", "dvssa"):
         if len(m["Q"]) != len(r["queue"]) or not all(_close(x, y) for x, y in zip(m["Q"], r["queue"])): return "final queue: model %r implementation %r" % (m["Q"], r["queue"])
-    if case["kind"] == "vssa":
+    if case["kind"] in ("vssa", "dvssa"):
         if len(m["V"]) != len(r["vols"]) or not all(_close(x, y) for x, y in zip(m["V"], r["vols"])): return "volume trace: model %r implementation %r" % (m["V"], r["vols"])
         if int(m["DIV"][0]) != r["divided"]: return "divided flag: model %s implementation %d" % (m["DIV"][0], r["divided"])
     return None
